@@ -8,6 +8,6 @@ CONSTANTS
   MaxEvents = 1
   MaxPerTick = 1
   DrainAfterQuit = TRUE
-  ShowBeforeStop = FALSE
+  AfterCancel = "none"
 INVARIANTS NoticeShownAtCompletion DisplayedIsPartOfSent
 CHECK_DEADLOCK FALSE
